@@ -27,6 +27,27 @@ VERIF_DIR = os.path.dirname(os.path.dirname(os.path.dirname(os.path.abspath(__fi
 
 
 # constructs outside the operator grammar: only layout invariance, source round trip and hash-seed independence
+# templates whose grouping is prescribed here (ExprSingle after return / satisfies / else takes a whole OrExpr, the comma
+# operator stays outside): binders are not in the operator tables of the precedence model
+FIXED_TREES = {
+    "for $x in ( 1 , 2 ) return $x = 1 or $x = 2": "(for ($ (x)) (, (1) (2)) (or (= ($ (x)) (1)) (= ($ (x)) (2))))",
+    "some $x in ( 1 , 2 ) satisfies $x = 1 or $x = 3": "(some ($ (x)) (, (1) (2)) (or (= ($ (x)) (1)) (= ($ (x)) (3))))",
+    "every $x in ( 1 , 2 ) satisfies $x = 1 and $x = 3 or true ( )":
+        "(every ($ (x)) (, (1) (2)) (or (and (= ($ (x)) (1)) (= ($ (x)) (3))) (true)))",
+    "let $x := 1 return $x = 2 or $x = 1": "(let ($ (x)) (1) (or (= ($ (x)) (2)) (= ($ (x)) (1))))",
+    "if ( 1 ) then 2 else 3 or 4": "(if (1) (2) (or (3) (4)))",
+    "for $x in ( 1 , 2 ) return $x , 3": "(, (for ($ (x)) (, (1) (2)) ($ (x))) (3))",
+    "for $x in ( 1 , 2 ) return if ( $x = 1 ) then 'a' else 'b' , 'c'":
+        "(, (for ($ (x)) (, (1) (2)) (if (= ($ (x)) (1)) ('a') ('b'))) ('c'))",
+    "for $x in ( 1 , 2 ) , $y in ( 3 , 4 ) return $x + $y = 5 and $y = 4":
+        "(for ($ (x)) (, (1) (2)) ($ (y)) (, (3) (4)) (and (= (+ ($ (x)) ($ (y))) (5)) (= ($ (y)) (4))))",
+    "let $x := 1 , $y := 2 return $x + $y * 2 to 7": "(let ($ (x)) (1) ($ (y)) (2) (to (+ ($ (x)) (* ($ (y)) (2))) (7)))",
+    "1 + ( for $x in ( 1 , 2 ) return $x ) [ 1 ]": "(+ (1) ([ (for ($ (x)) (, (1) (2)) ($ (x))) (1)))",
+    "some $x in ( 1 , 2 ) satisfies $x = 1 , 3": "(, (some ($ (x)) (, (1) (2)) (= ($ (x)) (1))) (3))",
+    "if ( 1 ) then 2 else 3 , 4": "(, (if (1) (2) (3)) (4))",
+    "- 1 + ( let $x := 2 return $x * 3 ) * 2": "(+ (- (1)) (* (let ($ (x)) (2) (* ($ (x)) (3))) (2)))",
+}
+
 FIXED = [
     "map { 1 : 2 , 'a' : ( 3 , 4 ) }", "map { }", "[ 1 , 2 ]", "array { 1 , 2 }", "[ 1 ] ? 1", "map { 1 : 2 } ? 1", "$m ? key", "$m ? *",
     "$m ? ( 1 + 1 )", "1 => abs ( )", "$f ( 1 , ? )", "concat ( ? , 'a' )", "abs # 1", "function ( $a , $b ) { $a + $b }",
@@ -60,12 +81,18 @@ FIXED = [
     "a / attribute ( Q{}y )", ". instance of element ( * , Q{http://www.w3.org/2001/XMLSchema}untyped )",
     "@x instance of attribute ( Q{}x , Q{http://www.w3.org/2001/XMLSchema}untypedAtomic )", "a / attribute ( p:z )",
     "map { a : b }", "a ! map { b : c , 1 : d }",
-]
+    "map { h1 : b }", "map { a / b2 : 1 }", ". instance of map ( xs:string , map ( * ) )", ". instance of map ( xs:string , array ( * ) )",
+    "function ( $m as map ( xs:string , array ( * ) ) ) { 1 }", ". instance of map ( xs:string , function ( * ) )",
+    ". instance of map ( xs:string , attribute ( x ) )", ". instance of array ( map ( * ) )",
+] + sorted(FIXED_TREES)
 
 
 def corpus_item(corpus_seed, i):
     rng = random.Random(hashlib.sha256(('c04/%d/%d' % (corpus_seed, i)).encode()).digest())
     version = rng.choice(VERSIONS)
+    if i < len(FIXED):
+        # every template is in every corpus (with a layout of its own); more picks follow at random
+        return {'kind': 'fixed', 'v': '3.1', 'tokens': FIXED[i].split(' '), 'layout_seed': rng.randrange(1 << 30), 'i': i}
     if rng.random() < 0.05:
         bad = rng.choice(['1 => zz:f()', '1 => (', '1 => math:', 'a[', '(1', '1 +', 'count(', '$', '1 => zz:f(2)', 'f(1',
                           "'a' => tns:g()", 'a/', '1 to', 'if (1) then', 'for $x in', 'map{1:', '[1,'])
@@ -226,6 +253,10 @@ def process_item(item, history=None):
             violate('GROUPING', 'valid-expression-rejected:fixed:' + canon_text,
                     '3.1 rejects the template %r (%r)' % (canon_text, rec[1]), ['template:' + canon_text])
             return out, viol
+        want_tree = FIXED_TREES.get(' '.join(toks))
+        if want_tree is not None and rec[1] != want_tree:
+            violate('GROUPING', 'tree-differs-from-grammar:fixed:' + canon_text,
+                    '3.1 parses %r as %s; the grammar prescribes %s' % (canon_text, rec[1], want_tree), ['template:' + canon_text])
         rec_var = outcome_of(parser_for(v), varied_text, root)
         out['varied'] = [varied_text, rec_var]
         feats.append('fixed-template')
